@@ -2,92 +2,76 @@
 """C10_translate.py — regenerates coq/C10_AccessTable.v (the access table `current_table`)
 from the C++ sources of build.REPO, through clang's JSON AST.
 
-For every translated class (TRANSLATED below, explicit) the class's .cpp is parsed with
+EVERY source file of the library (the repository's own CMake list, `build.lib_sources()`) is parsed with
 
     clang++ -std=c++11 -fsyntax-only -DBFL_VERIF -DEIGEN_INITIALIZE_MATRICES_BY_ZERO
             -I<repo>/src/BayesFilters/include -I/usr/include/eigen3
             -Xclang -ast-dump=json -Xclang -ast-dump-filter=bfl <file>
 
-(filter `bfl`: every declaration of namespace bfl seen by that translation unit, so that the class
-hierarchy and the ids of the methods of the other classes are available for call resolution).
+(filter `bfl`: every declaration of namespace bfl seen by that translation unit).  Every function
+body of namespace bfl is translated: methods (out-of-line and in-class), instantiations of member
+templates and of function templates, free functions.  For each body: the accesses to member data
+(class-level variable `Class::field`), to what a pointer / smart pointer / reference member designates
+(`Class::field.*`) and to non-local variables (`global::name`), each classified read / write and
+protected by  Mutex m  (inside the scope of a std::lock_guard / std::unique_lock on member m, until
+an explicit unlock),  Atomic  (the type is std::atomic<..>, std::mutex, std::condition_variable, a
+bfl class ALL of whose data members are such types, or the object is std::cout/cerr/clog) or  Plain;
+the calls; thread creation (std::thread(&C::m, this)) and join.
 
-For every method with a body: the accesses to member data (MemberExpr on `this` or on another object
-of a translated class) and to non-local variables, each classified read / write and protected by
-Mutex m (inside the scope of a std::lock_guard / std::unique_lock on member m, until an explicit
-unlock), Atomic (the member's type is std::atomic<..>, std::mutex, std::condition_variable, or a
-standard stream object) or Plain; the calls to methods of translated classes; thread creation
-(std::thread(&C::m, this)) and join.  Reachability is then computed from the control/query API
-(CTL_ROOTS, thread Ctl) and from the thread body (the method given to std::thread, plus
-FLT_ASSUMED_ROOTS, thread Flt); a virtual or non-virtual call C::m is resolved conservatively to
-every method named m of C, of its translated ancestors and of its translated descendants.
+Reachability is computed from the control/query API (CTL_ROOTS, thread Ctl) and from the thread body
+(the method given to std::thread, plus FLT_ASSUMED_ROOTS, thread Flt); a call C::m is resolved to every
+body named m of C, of its ancestors and of its descendants.
 
-FAIL CLOSED: a statement/expression kind that is not in the white list, a lock object used in a way
-that is not understood, `this` or a pointer to member escaping, a lambda anywhere but as the
-predicate of condition_variable::wait, ... become a Plain write to the variable `Unknown`, which the
-Coq checker treats as aliasing every variable.  A member access in a context that is not provably
-a read is a write.
+FAIL CLOSED.  Becomes a Plain write to the variable `Unknown` (which the Coq checker treats as
+aliasing every variable):  a statement/expression kind that is not in the white list; a lock object
+used in a way that is not understood; `this` or a pointer to member escaping; a lambda anywhere but as
+the predicate of condition_variable::wait; a call from a reachable body that does not resolve to a
+translated body although the callee is declared in the repository (a declared non-pure method without
+body, a member of a bfl class or class template the translator has no record of, a free function
+defined at file scope of a repository file outside namespace bfl).  A member access in a context that
+is not provably a read is a write.  A reference/pointer to a member that outlives the expression
+(returned, bound to a local reference or pointer, address taken) is an UNPROTECTED access whatever
+lock is held.
 
-vlib-independent except for `build.SRC` / `build.COQ` (so that BFL_REPO is respected)."""
+Not covered (stated in the evidence): constructors/destructors (an object under construction is not
+shared), user code overriding virtual methods, the standard library and Eigen.
+
+vlib-independent except for `build.SRC` / `build.COQ` / `build.lib_sources` (so that BFL_REPO is respected)."""
 import hashlib, json, os, pickle, re, subprocess, sys, time
 from concurrent.futures import ThreadPoolExecutor
 
 sys.path.insert(0, os.path.dirname(os.path.dirname(os.path.abspath(__file__))))
 from vlib import build
 
-VERSION = "7"
+VERSION = "12"
 
 # ----------------------------------------------------------------------------- configuration (explicit)
-# translated class -> source file (relative to src/BayesFilters/src)
-TRANSLATED = {
-    "FilteringAlgorithm": "FilteringAlgorithm.cpp",
-    "GaussianFilter": "GaussianFilter.cpp",
-    "ParticleFilter": "ParticleFilter.cpp",
-    "SIS": "SIS.cpp",
-    "GaussianPrediction": "GaussianPrediction.cpp",
-    "GaussianCorrection": "GaussianCorrection.cpp",
-    "PFPrediction": "PFPrediction.cpp",
-    "PFCorrection": "PFCorrection.cpp",
-    "StateModel": "StateModel.cpp",
-    "ExogenousModel": "ExogenousModel.cpp",
-    # the steps that read skip state, and every overrider in the library of the virtual methods
-    # through which the filtering thread reaches them
-    "KFPrediction": "KFPrediction.cpp",
-    "UKFPrediction": "UKFPrediction.cpp",
-    "KFCorrection": "KFCorrection.cpp",
-    "UKFCorrection": "UKFCorrection.cpp",
-    "SUKFCorrection": "SUKFCorrection.cpp",
-    "DrawParticles": "DrawParticles.cpp",
-    "GPFPrediction": "GPFPrediction.cpp",
-    "BootstrapCorrection": "BootstrapCorrection.cpp",
-    "GPFCorrection": "GPFCorrection.cpp",
-    "AdditiveStateModel": "AdditiveStateModel.cpp",
-    "LinearStateModel": "LinearStateModel.cpp",
-    "LTIStateModel": "LTIStateModel.cpp",
-    "WhiteNoiseAcceleration": "WhiteNoiseAcceleration.cpp",
-    # header-only helper holding the skip state (translated from a unit that includes it)
-    "SkipFlag": "GaussianPrediction.cpp",
-}
-
-# public control / query API (thread Ctl); boot and wait are the fork and the join
+# public control / query API of the property (thread Ctl); boot and wait are the fork and the join
 CTL_ROOTS = [("FilteringAlgorithm", m) for m in
              ("boot", "run", "wait", "reset", "reboot", "teardown", "step_number", "is_running")] + \
             [("GaussianFilter", "skip"), ("ParticleFilter", "skip")]
+
+# Not part of the property's command list, analysed separately and reported (not as violations):
+# the logging switches that FilteringAlgorithm inherits from Logger
+EXTENDED_CTL_ROOTS = [("Logger", "enable_log"), ("Logger", "disable_log")]
 
 # GaussianFilter::filtering_step is pure virtual and implemented by user code; per the API that code
 # drives the filter through these members (SIS::filtering_step, which is translated, does the same
 # for the particle filter).  They are therefore roots of the filtering thread.
 FLT_ASSUMED_ROOTS = [("GaussianFilter", "prediction"), ("GaussianFilter", "correction"),
                      ("GaussianPrediction", "predict"), ("GaussianCorrection", "correct"),
-                     ("GaussianCorrection", "freeze_measurements"),
-                     ("FilteringAlgorithm", "step_number")]
+                     ("GaussianCorrection", "freeze_measurements"), ("GaussianCorrection", "getLikelihood"),
+                     ("FilteringAlgorithm", "step_number"), ("Logger", "logger")]
 
 # types whose operations are synchronised by the standard library itself
-SYNC_TYPE = re.compile(r"^(const )?(std::atomic<.*>|std::atomic_\w+|std::mutex|std::condition_variable|"
-                       r"std::ostream|std::basic_ostream<.*>|std::istream)$")
+SYNC_TYPE = re.compile(r"^(const )?(std::atomic<.*>|std::atomic_\w+|std::mutex|std::condition_variable)$")
+SYNC_GLOBALS = {"cout", "cerr", "clog", "cin", "wcout", "wcerr", "wclog"}   # [iostream.objects.overview] p4
+STREAM_TYPE = re.compile(r"^(std::)?(ostream|istream|wostream|basic_ostream<.*>|basic_istream<.*>)$")
 MUTEX_TYPE = re.compile(r"^std::mutex$")
 LOCK_TYPE = re.compile(r"^(std::lock_guard<std::mutex>|std::unique_lock<std::mutex>)$")
 THREAD_TYPE = re.compile(r"^std::thread$")
 CV_TYPE = re.compile(r"^std::condition_variable$")
+SMART_PTR = re.compile(r"^(?:const )?(?:std::)?(unique_ptr|shared_ptr|weak_ptr)<(.*)>$")
 # the verification hook of FilteringAlgorithm (null unless a verification harness installs it; the C10
 # harness does not): `this` passed to it is not an escape
 HOOK_NAMES = {"bfl_verif_hook"}
@@ -105,14 +89,17 @@ TRANSPARENT = {
     "UnaryExprOrTypeTraitExpr", "ImplicitValueInitExpr", "CXXScalarValueInitExpr", "LambdaExpr", "VarDecl",
     "CXXDefaultInitExpr", "OpaqueValueExpr", "SwitchStmt", "CaseStmt", "DefaultStmt", "CXXNoexceptExpr",
     "TypeTraitExpr", "PredefinedExpr", "GNUNullExpr", "CXXPseudoDestructorExpr", "BinaryConditionalOperator",
-    "TypedefDecl", "TypeAliasDecl", "UsingDecl", "UsingDirectiveDecl", "StaticAssertDecl", "CXXNullPtrLiteralExpr",
+    "TypedefDecl", "TypeAliasDecl", "UsingDecl", "UsingDirectiveDecl", "StaticAssertDecl",
     "UserDefinedLiteral", "ArrayInitLoopExpr", "ArrayInitIndexExpr", "SizeOfPackExpr", "ExpressionTraitExpr",
-    "CXXInheritedCtorInitExpr", "FullExpr", "NoInitExpr", "ParenListExpr", "RecoveryExpr_NOT",
+    "CXXInheritedCtorInitExpr", "FullExpr", "NoInitExpr", "ParenListExpr", "CXXTypeidExpr", "PackExpansionExpr_NOT",
 }
-TRANSPARENT.discard("RecoveryExpr_NOT")
+TRANSPARENT.discard("PackExpansionExpr_NOT")
 ATTR = re.compile(r".*Attr$")
 ASSIGN_OPS = {"=", "+=", "-=", "*=", "/=", "%=", "&=", "|=", "^=", "<<=", ">>="}
-LOOPS = {"ForStmt", "WhileStmt", "DoStmt", "CXXForRangeStmt"}
+PASS_THROUGH = {"ParenExpr", "ExprWithCleanups", "MaterializeTemporaryExpr", "CXXBindTemporaryExpr", "ConstantExpr",
+                "CXXStaticCastExpr", "CXXConstCastExpr", "CXXReinterpretCastExpr", "CStyleCastExpr", "CXXFunctionalCastExpr",
+                "CXXDynamicCastExpr", "SubstNonTypeTemplateParmExpr", "FullExpr"}
+FREE = "(free)"      # pseudo class of free functions of namespace bfl
 
 
 # ----------------------------------------------------------------------------- clang
@@ -142,11 +129,13 @@ def parse_objects(txt):
 
 def strip_type(t):
     t = t.strip()
-    for p in ("const ", "volatile ", "class ", "struct "):
-        while t.startswith(p):
-            t = t[len(p):]
-    t = re.sub(r"\s*(\*|&|&&)?\s*(const)?\s*$", "", t)
-    t = re.sub(r"\s*(\*|&|&&)\s*$", "", t)
+    changed = True
+    while changed:
+        changed = False
+        for p in ("const ", "volatile ", "class ", "struct ", "typename "):
+            if t.startswith(p):
+                t = t[len(p):]; changed = True
+    t = re.sub(r"(\s*(\*|&|&&|const|volatile))+\s*$", "", t)
     if t.startswith("bfl::"):
         t = t[5:]
     return t.strip()
@@ -162,32 +151,146 @@ def desugared(n):
 
 
 def norm_std(t):
-    """std::atomic<bool> and friends print in several ways (std::atomic<bool>, atomic<bool>, std::__atomic_base...)."""
     t = t.strip()
     t = re.sub(r"^const ", "", t)
     return t
 
 
+def is_pointer_type(t):
+    return bool(re.search(r"\*\s*(const|volatile|\s)*$", t.strip()))
+
+
+def first_template_arg(s):
+    depth = 0
+    for i, ch in enumerate(s):
+        if ch in "<(":
+            depth += 1
+        elif ch in ">)":
+            depth -= 1
+        elif ch == "," and depth == 0:
+            return s[:i].strip()
+    return s.strip()
+
+
+def pointer_kind(t):
+    """('val'|'ref'|'ptr'|'smart', pointee type or None) of a data member's declared type."""
+    t = t.strip()
+    if t.endswith("&"):
+        return "ref", t.rstrip("&").strip()
+    if is_pointer_type(t):
+        return "ptr", re.sub(r"\*\s*(const|volatile|\s)*$", "", t).strip()
+    m = SMART_PTR.match(t)
+    if m:
+        return "smart", first_template_arg(m.group(2))
+    return "val", None
+
+
+# ----------------------------------------------------------------------------- repository-level scan: free functions at file scope
+
+def strip_cpp_text(txt):
+    """comments and string/char literals blanked"""
+    out, i, n = [], 0, len(txt)
+    while i < n:
+        c = txt[i]
+        if txt.startswith("//", i):
+            j = txt.find("\n", i); j = n if j < 0 else j
+            i = j
+        elif txt.startswith("/*", i):
+            j = txt.find("*/", i + 2); j = n if j < 0 else j + 2
+            out.append(" " * 1); i = j
+        elif c in "\"'":
+            j = i + 1
+            while j < n and txt[j] != c:
+                j += 2 if txt[j] == "\\" else 1
+            out.append(c + c); i = j + 1
+        else:
+            out.append(c); i += 1
+    return "".join(out)
+
+
+def file_scope_functions(path):
+    """Names that are followed by `(` at namespace scope (outside every class / function body) of a repository
+    file and are not qualified (`X::name(` is a member definition): free functions defined or declared there."""
+    txt = strip_cpp_text(open(path, errors="replace").read())
+    txt = re.sub(r"^\s*#.*?$", "", txt, flags=re.M)
+    names, stack, i, n = set(), [], 0, len(txt)     # stack: namespace name ("" anonymous / extern "C") or None (other brace)
+    last_stmt = 0
+    while i < n:
+        c = txt[i]
+        if c == "{":
+            head = txt[last_stmt:i]
+            mns = re.search(r"\bnamespace\b\s*([A-Za-z_0-9:]*)\s*$", head)
+            if mns:
+                stack.append(mns.group(1))
+            elif re.search(r"\bextern\s*\"\"\s*$", head):
+                stack.append("")
+            else:
+                stack.append(None)
+            last_stmt = i + 1
+        elif c == "}":
+            if stack:
+                stack.pop()
+            last_stmt = i + 1
+        elif c == ";":
+            last_stmt = i + 1
+        elif c == "(" and all(x is not None for x in stack) and not any(x.split("::")[0] == "bfl" for x in stack if x):
+            m = re.search(r"([A-Za-z_~][A-Za-z_0-9]*)\s*$", txt[last_stmt:i])
+            if m:
+                name = m.group(1)
+                before = txt[last_stmt:last_stmt + m.start()].rstrip()
+                if not before.endswith("::") and not before.endswith(".") and not before.endswith("->") and \
+                   name not in ("if", "while", "for", "switch", "return", "sizeof", "decltype", "alignas", "noexcept", "operator",
+                                "static_assert", "defined", "throw", "catch", "__attribute__", "alignof", "typeid"):
+                    names.add(name)
+            # skip the parenthesised part
+            depth, j = 0, i
+            while j < n:
+                if txt[j] == "(":
+                    depth += 1
+                elif txt[j] == ")":
+                    depth -= 1
+                    if depth == 0:
+                        break
+                j += 1
+            i = j
+        i += 1
+    return names
+
+
+def repo_file_scope_functions():
+    out = {}
+    dirs = [os.path.join(build.SRC, "src"), os.path.join(build.SRC, "include", "BayesFilters")]
+    for d in dirs:
+        for fn in sorted(os.listdir(d)):
+            if fn.endswith((".cpp", ".h", ".hpp")):
+                for name in file_scope_functions(os.path.join(d, fn)):
+                    out.setdefault(name, []).append(fn)
+    return out
+
+
+# ----------------------------------------------------------------------------- one translation unit
+
 class TU:
-    """One translation unit: class hierarchy, id maps, method bodies."""
+    """One translation unit: class hierarchy, id maps, bodies."""
 
     def __init__(self, src, objs):
         self.src = src
-        self.records = {}       # class name -> {"bases": [...], "fields": {name: type}, "methods": {name: {...}}}
-        self.method_by_id = {}  # id -> (class, method name)
-        self.method_info = {}   # id -> dict(virtual, pure, type)
+        self.records = {}       # class name -> {"bases": [...], "fields": {name: type}, "methods": {name: [info]}}
+        self.method_by_id = {}  # id -> (class, name)      (class FREE for free functions)
+        self.method_info = {}   # id -> dict(virtual, pure, type, defaulted, implicit)
         self.field_by_id = {}   # id -> (class, field name, type, desugared)
         self.record_ids = {}    # record id -> class name
-        self.bodies = {}        # (class, method name, type) -> (node of the definition)
+        self.bodies = {}        # (class, name, type) -> node of the definition
+        self.ctors = []         # (class, CXXConstructorDecl node with a body / initialisers)
         self.loc = {"file": None, "line": None}
-        seen = set()
+        self.seen = set()
         for o in objs:
             self.annotate(o)
         for o in objs:
-            self.collect(o, seen, None)
+            self.collect(o, None)
 
     def sync_type(self, t, depth=0):
-        """std::atomic / mutex / condition_variable / stream, or a class of namespace bfl all of whose data members
+        """std::atomic / mutex / condition_variable, or a class of namespace bfl ALL of whose data members
         (and bases) are of such types: every access to its state is then an atomic operation."""
         t = norm_std(t)
         if SYNC_TYPE.match(t):
@@ -224,7 +327,9 @@ class TU:
         if not isinstance(n, dict):
             return
         if "loc" in n:
-            self.sloc(n["loc"])
+            l = self.sloc(n["loc"])
+            if l:
+                n["_lfile"] = l[0]
         if "range" in n:
             b = self.sloc(n["range"].get("begin"))
             self.sloc(n["range"].get("end"))
@@ -234,61 +339,135 @@ class TU:
             self.annotate(c)
 
     # ---- declarations
-    def collect(self, n, seen, cls):
+    @staticmethod
+    def has_body(n):
+        return any(x.get("kind") == "CompoundStmt" for x in n.get("inner", []))
+
+    def add_method(self, cls, c, body_ok=True):
+        name = c.get("name")
+        self.method_by_id[c["id"]] = (cls, name)
+        info = {"virtual": bool(c.get("virtual")), "pure": bool(c.get("pure")), "type": qual(c),
+                "defaulted": c.get("explicitlyDefaulted"), "implicit": bool(c.get("isImplicit"))}
+        self.method_info[c["id"]] = info
+        if cls in self.records:
+            lst = self.records[cls]["methods"].setdefault(name, [])
+            if info not in lst:
+                lst.append(info)
+        if body_ok and self.has_body(c) and not info["implicit"] and not info["defaulted"]:
+            self.bodies[(cls, name, qual(c))] = c
+
+    def add_template(self, cls, t):
+        """FunctionTemplateDecl: first function = the (dependent) pattern, the others = instantiations."""
+        for c in t.get("inner", []):
+            if c.get("kind") in ("CXXMethodDecl", "CXXConversionDecl", "FunctionDecl"):
+                inst = any(x.get("kind") == "TemplateArgument" for x in c.get("inner", []))
+                owner = cls
+                if owner is None:
+                    owner = self.record_ids.get(c.get("parentDeclContextId")) or FREE
+                    prev = self.method_by_id.get(c.get("previousDecl"))
+                    if prev:
+                        owner = prev[0]
+                self.add_method(owner, c, body_ok=inst)
+                if not inst and owner in self.records:
+                    self.records[owner].setdefault("templates", set()).add(c.get("name"))
+
+    def collect(self, n, cls):
         if not isinstance(n, dict):
             return
         k = n.get("kind")
+        if n.get("id") in self.seen and k not in ("NamespaceDecl",):
+            return
         if k in ("NamespaceDecl", "LinkageSpecDecl"):
             for c in n.get("inner", []):
-                self.collect(c, seen, None)
+                self.collect(c, None)
             return
-        if k == "CXXRecordDecl":
-            if n.get("id") in seen:
-                return
-            seen.add(n.get("id"))
-            name = n.get("name")
-            if not name:
-                return
-            self.record_ids[n["id"]] = name
-            if n.get("previousDecl"):
-                pass
-            if not n.get("completeDefinition"):
-                return
-            rec = self.records.setdefault(name, {"bases": [], "fields": {}, "methods": {}})
-            rec["bases"] = [strip_type(b["type"]["qualType"]) for b in n.get("bases", [])]
+        if k == "ClassTemplateDecl":
+            self.seen.add(n.get("id"))
+            first = True
             for c in n.get("inner", []):
-                ck = c.get("kind")
-                if ck == "FieldDecl":
-                    self.field_by_id[c["id"]] = (name, c.get("name"), qual(c), desugared(c))
-                    rec["fields"][c.get("name")] = qual(c)
-                elif ck == "VarDecl" and not c.get("constexpr") and not qual(c).startswith("const "):
-                    rec["fields"]["static " + str(c.get("name"))] = qual(c)   # static data member
-                elif ck in ("CXXMethodDecl", "CXXConversionDecl"):
-                    self.method_by_id[c["id"]] = (name, c.get("name"))
-                    self.method_info[c["id"]] = {"virtual": bool(c.get("virtual")), "pure": bool(c.get("pure")), "type": qual(c)}
-                    rec["methods"].setdefault(c.get("name"), []).append({"virtual": bool(c.get("virtual")), "pure": bool(c.get("pure")), "type": qual(c)})
-                    if any(x.get("kind") == "CompoundStmt" for x in c.get("inner", [])):
-                        self.bodies[(name, c.get("name"), qual(c))] = c
-                elif ck == "CXXRecordDecl":
-                    self.collect(c, seen, name)
+                if c.get("kind") == "CXXRecordDecl" and first:
+                    first = False
+                    self.record_ids[c.get("id")] = c.get("name")
+                    if c.get("completeDefinition") and c.get("name"):
+                        # the dependent pattern: remember the class, its fields and method names, never its bodies
+                        rec = self.records.setdefault(c["name"], {"bases": [], "fields": {}, "methods": {}})
+                        rec["pattern"] = True
+                        for x in c.get("inner", []):
+                            if x.get("kind") == "FieldDecl":
+                                self.field_by_id[x["id"]] = (c["name"], x.get("name"), qual(x), desugared(x))
+                                rec["fields"][x.get("name")] = qual(x)
+                            elif x.get("kind") in ("CXXMethodDecl", "CXXConversionDecl"):
+                                self.add_method(c["name"], x, body_ok=False)
+                elif c.get("kind") in ("ClassTemplateSpecializationDecl", "ClassTemplatePartialSpecializationDecl"):
+                    self.collect_record(c)
             return
-        if k in ("CXXMethodDecl", "CXXConversionDecl") and n.get("previousDecl") and n.get("id") not in seen:
-            seen.add(n["id"])
+        if k in ("CXXRecordDecl", "ClassTemplateSpecializationDecl"):
+            return self.collect_record(n)
+        if k == "FunctionTemplateDecl":
+            self.seen.add(n.get("id"))
+            return self.add_template(cls, n)
+        if k in ("CXXMethodDecl", "CXXConversionDecl") and n.get("previousDecl"):
+            self.seen.add(n["id"])
             owner = self.record_ids.get(n.get("parentDeclContextId"))
             prev = self.method_by_id.get(n.get("previousDecl"))
             if prev:
                 owner = prev[0]
             if owner:
                 self.method_by_id[n["id"]] = (owner, n.get("name"))
-                if any(x.get("kind") == "CompoundStmt" for x in n.get("inner", [])):
+                if self.has_body(n):
                     self.bodies[(owner, n.get("name"), qual(n))] = n
+            return
+        if k == "FunctionDecl":
+            self.seen.add(n["id"])
+            self.add_method(FREE, n)
+            return
+        if k == "CXXConstructorDecl" and self.has_body(n):
+            self.seen.add(n["id"])
+            owner = self.record_ids.get(n.get("parentDeclContextId"))
+            if owner:
+                self.ctors.append((owner, n))
+            return
+
+    def collect_record(self, n):
+        if n.get("id") in self.seen:
+            return
+        self.seen.add(n.get("id"))
+        name = n.get("name")
+        if not name:
+            return
+        self.record_ids[n["id"]] = name
+        if not n.get("completeDefinition"):
+            return
+        rec = self.records.setdefault(name, {"bases": [], "fields": {}, "methods": {}})
+        rec["bases"] = sorted(set(rec["bases"]) | set(strip_type(b["type"]["qualType"]) for b in n.get("bases", [])))
+        for c in n.get("inner", []):
+            ck = c.get("kind")
+            if ck == "FieldDecl":
+                self.field_by_id[c["id"]] = (name, c.get("name"), qual(c), desugared(c))
+                rec["fields"][c.get("name")] = qual(c)
+            elif ck == "VarDecl" and not c.get("constexpr") and not qual(c).startswith("const "):
+                rec["fields"]["static " + str(c.get("name"))] = qual(c)   # static data member
+            elif ck in ("CXXMethodDecl", "CXXConversionDecl"):
+                self.add_method(name, c)
+            elif ck == "CXXConstructorDecl" and self.has_body(c) and not c.get("isImplicit"):
+                self.ctors.append((name, c))
+            elif ck == "FunctionTemplateDecl":
+                self.add_template(name, c)
+            elif ck in ("CXXRecordDecl", "ClassTemplateSpecializationDecl"):
+                self.collect_record(c)
+            elif ck == "ClassTemplateDecl":
+                self.collect(c, name)
 
 
-# ----------------------------------------------------------------------------- one method body
+# ----------------------------------------------------------------------------- one function body
 
 class Body:
-    def __init__(self, tu, cls, name, node):
+    def __init__(self, tu, cls, name, node, repo_free, lambda_node=False, closures_only=False):
         self.tu, self.cls, self.name = tu, cls, name
+        self.repo_free = repo_free
+        self.closures = []    # ((class, "(closure) field"), Body)
+        self.no_lock = False
+        self.record = not closures_only
         self.accesses = []    # (var or None for Unknown, "Rd"/"Wr", prot, site, note)
         self.calls = []       # (class, method)
         self.forks = []       # (class, method)
@@ -301,11 +480,13 @@ class Body:
         self.lockvars = {}
         self.lambda_lock = None
         self.collect_locals(node)
+        self.first_site = self.site(node)
         for c in node.get("inner", []):
             if c.get("kind") == "CompoundStmt":
-                self.visit(c, [])
-            elif c.get("kind") == "CXXCtorInitializer":
-                self.unknown(c, "constructor initialiser")
+                self.visit(c, [node] if lambda_node else [])
+            elif c.get("kind") == "CXXCtorInitializer" and closures_only:
+                for x in c.get("inner", []):
+                    self.visit(x, [c])
 
     def collect_locals(self, n):
         if not isinstance(n, dict):
@@ -327,9 +508,11 @@ class Body:
                     break
         return "%s:%s" % (os.path.basename(f) if f else "?", l if l is not None else "?")
 
-    def prot(self, sync):
+    def prot(self, sync, escaped=False):
         if sync:
             return "Atomic"
+        if escaped or self.no_lock:
+            return "Plain"
         held = [l for l in self.locks if l["active"]]
         if self.lambda_lock:
             return "Mutex " + self.lambda_lock
@@ -337,10 +520,16 @@ class Body:
             return "Mutex " + held[0]["mutex"]
         return "Plain"
 
-    def access(self, var, rw, sync, n, chain, note=""):
-        self.accesses.append((var, rw, self.prot(sync), self.site(n, chain), note))
+    def access(self, var, rw, sync, n, chain, note="", escaped=False):
+        if not self.record:
+            return
+        a = (var, rw, self.prot(sync, escaped), self.site(n, chain), note)
+        if a not in self.accesses:
+            self.accesses.append(a)
 
     def unknown(self, n, why, chain=()):
+        if not self.record:
+            return
         self.notes.append("%s::%s %s: %s" % (self.cls, self.name, self.site(n, chain), why))
         self.accesses.append((None, "Wr", "Plain", self.site(n, chain), why))
 
@@ -358,82 +547,226 @@ class Body:
     def is_field_member(self, n):
         return n.get("kind") == "MemberExpr" and n.get("referencedMemberDecl") in self.tu.field_by_id
 
-    def is_const_type(self, n):
+    @staticmethod
+    def is_const_type(n):
         return qual(n).startswith("const ")
 
-    def classify(self, node, chain):
-        """Read or write?  `chain` = ancestors of node (outermost first).  Anything not provably a read is a write."""
-        cur = node
-        for p in reversed(chain):
+    @staticmethod
+    def idx_in(p, cur):
+        return next((i for i, c in enumerate(p.get("inner", [])) if c is cur), -1)
+
+    @staticmethod
+    def is_method_member(p):
+        return p.get("kind") == "MemberExpr" and qual(p) == "<bound member function type>"
+
+    @staticmethod
+    def callee_name(call):
+        """name of the function an operator call / call expression invokes"""
+        inner = call.get("inner", [])
+        if not inner:
+            return None
+        c = Body.skip_casts(inner[0])
+        if c.get("kind") == "DeclRefExpr":
+            return (c.get("referencedDecl") or {}).get("name")
+        if c.get("kind") == "MemberExpr":
+            return c.get("name")
+        return None
+
+    def bfl_class(self, t):
+        c = strip_type(t)
+        c = re.sub(r"<.*>$", "", c)
+        c = c.split("::")[-1] if c else c
+        return c if c in self.tu.records else None
+
+    # ---- does the designated object (an lvalue, or a pointer value) outlive the expression?
+    def escapes(self, cur, anc):
+        i = len(anc) - 1
+        while i >= 0:
+            p = anc[i]
             k = p.get("kind")
-            inner = p.get("inner", [])
-            idx = next((i for i, c in enumerate(inner) if c is cur), -1)
+            idx = self.idx_in(p, cur)
+            if cur.get("valueCategory") == "prvalue" and not is_pointer_type(qual(cur)) and cur.get("kind") not in ("CXXThisExpr",):
+                return False          # a value: nothing designates the member any more
+            if k == "ImplicitCastExpr":
+                if p.get("castKind") == "LValueToRValue" and not is_pointer_type(qual(p)):
+                    return False
+                cur = p; i -= 1; continue
+            if k in PASS_THROUGH:
+                cur = p; i -= 1; continue
+            if k == "MemberExpr":
+                if not self.is_method_member(p):
+                    if p.get("isArrow") and is_pointer_type(qual(cur)):
+                        return False  # the pointee is designated from here on (handled by pointee_access)
+                    cur = p; i -= 1; continue
+                call = anc[i - 1] if i >= 1 else {}
+                if call.get("kind") == "CXXMemberCallExpr" and call.get("inner", [None])[0] is p:
+                    if call.get("valueCategory") in ("lvalue", "xvalue") or is_pointer_type(qual(call)):
+                        cur = call; i -= 2; continue
+                return False
+            if k == "UnaryOperator":
+                op = p.get("opcode")
+                if op == "&":
+                    cur = p; i -= 1; continue
+                if op == "*":
+                    return False      # pointee from here on
+                if op in ("++", "--") and p.get("valueCategory") == "lvalue":
+                    cur = p; i -= 1; continue
+                return False
+            if k == "ArraySubscriptExpr":
+                if idx != 0 or is_pointer_type(qual(cur)):
+                    return False
+                cur = p; i -= 1; continue
+            if k in ("ConditionalOperator", "BinaryConditionalOperator"):
+                if idx == 0:
+                    return False
+                cur = p; i -= 1; continue
+            if k in ("BinaryOperator", "CompoundAssignOperator"):
+                op = p.get("opcode")
+                if op == "," and idx == 1:
+                    cur = p; i -= 1; continue
+                if op in ASSIGN_OPS:
+                    if idx == 1:
+                        return is_pointer_type(qual(cur))     # a pointer stored somewhere else
+                    if p.get("valueCategory") == "lvalue":
+                        cur = p; i -= 1; continue
+                return False
+            if k == "CXXOperatorCallExpr":
+                if idx == 0:
+                    return False
+                if self.callee_name(p) in ("operator*", "operator->"):
+                    return False      # pointee from here on
+                if p.get("valueCategory") in ("lvalue", "xvalue") or is_pointer_type(qual(p)):
+                    cur = p; i -= 1; continue
+                return False
+            if k in ("CallExpr", "CXXMemberCallExpr", "CXXConstructExpr", "CXXTemporaryObjectExpr", "CXXNewExpr"):
+                return False          # used during the call
+            if k in ("CompoundStmt", "IfStmt", "WhileStmt", "DoStmt", "ForStmt", "SwitchStmt", "CaseStmt", "DefaultStmt",
+                     "CXXForRangeStmt", "CXXThrowExpr", "NullStmt"):
+                return False
+            if k in ("ReturnStmt", "VarDecl", "InitListExpr", "LambdaExpr", "DeclStmt"):
+                return True
+            return True
+        return False
+
+    def classify(self, node, chain):
+        """(rw, note, escaped).  `chain` = ancestors of node (outermost first).  Anything not provably a read is a
+        write; `escaped` = a reference / pointer to the object outlives the expression."""
+        cur = node
+        i = len(chain) - 1
+        while i >= 0:
+            p = chain[i]
+            anc = chain[:i + 1]
+            k = p.get("kind")
+            idx = self.idx_in(p, cur)
             if k == "ImplicitCastExpr":
                 ck = p.get("castKind")
                 if ck == "LValueToRValue":
-                    return "Rd", ""
+                    return "Rd", "", False
                 if ck in ("NoOp", "UncheckedDerivedToBase", "DerivedToBase"):
                     if self.is_const_type(p):
-                        return "Rd", ""
-                    cur = p
-                    continue
-                return "Wr", "cast " + str(ck)
-            if k in ("ParenExpr", "ArraySubscriptExpr"):
-                if k == "ArraySubscriptExpr" and idx != 0:
-                    return "Rd", ""
-                cur = p
-                continue
+                        return "Rd", "", self.escapes(cur, anc)
+                    cur = p; i -= 1; continue
+                if ck in ("ArrayToPointerDecay",):
+                    return "Wr", "array decays to a pointer", True
+                return "Wr", "cast " + str(ck), self.escapes(cur, anc)
+            if k in PASS_THROUGH or (k == "ArraySubscriptExpr" and idx == 0):
+                if k in ("CXXConstCastExpr", "CXXReinterpretCastExpr", "CStyleCastExpr"):
+                    return "Wr", k, self.escapes(cur, anc)
+                cur = p; i -= 1; continue
+            if k == "ArraySubscriptExpr":
+                return "Rd", "", False
             if k == "MemberExpr":
-                # cur is the object of p
-                if qual(p) != "<bound member function type>":
-                    cur = p          # sub-object: context of the outer expression decides
-                    continue
-                # method call on the object
+                if not self.is_method_member(p):
+                    cur = p; i -= 1; continue          # sub-object: context of the outer expression decides
+                esc = self.escapes(cur, anc)
                 if self.is_const_type(cur):
-                    return "Rd", ""
-                return "Wr", "non-const method " + str(p.get("name"))
+                    return "Rd", "", esc
+                return "Wr", "non-const method " + str(p.get("name")), esc
             if k in ("BinaryOperator", "CompoundAssignOperator"):
-                if p.get("opcode") in ASSIGN_OPS:
-                    return ("Wr", "") if idx == 0 else ("Rd", "")
-                if p.get("opcode") == ",":
+                op = p.get("opcode")
+                if op in ASSIGN_OPS:
+                    return ("Wr", "", self.escapes(cur, anc)) if idx == 0 else ("Rd", "", self.escapes(cur, anc))
+                if op == ",":
                     if idx == 0:
-                        return "Rd", ""
-                    cur = p
-                    continue
-                if p.get("opcode") in (".*", "->*"):
-                    return "Wr", "pointer to member"
-                return "Rd", ""
+                        return "Rd", "", False
+                    cur = p; i -= 1; continue
+                if op in (".*", "->*"):
+                    return "Wr", "pointer to member", True
+                return "Rd", "", False
             if k == "UnaryOperator":
-                if p.get("opcode") in ("++", "--"):
-                    return "Wr", ""
-                if p.get("opcode") == "&":
-                    return "Wr", "address taken"
-                if p.get("opcode") == "*":
-                    cur = p
-                    continue
-                return "Rd", ""
-            if k in ("CompoundStmt", "IfStmt", "WhileStmt", "DoStmt", "ForStmt", "SwitchStmt", "CaseStmt", "DefaultStmt"):
-                return "Rd", ""   # value discarded / condition
+                op = p.get("opcode")
+                if op in ("++", "--"):
+                    return "Wr", "", self.escapes(cur, anc)
+                if op == "&":
+                    return "Wr", "address taken", True
+                if op == "*":
+                    cur = p; i -= 1; continue
+                return "Rd", "", False
+            if k in ("CompoundStmt", "IfStmt", "WhileStmt", "DoStmt", "ForStmt", "SwitchStmt", "CaseStmt", "DefaultStmt", "CXXForRangeStmt"):
+                return "Rd", "", False   # value discarded / condition
             if k == "CXXOperatorCallExpr":
                 if idx == 0:
-                    return "Rd", ""
-                return "Wr", "non-const operand of an overloaded operator"
-            if k in ("CallExpr", "CXXMemberCallExpr", "CXXConstructExpr", "CXXTemporaryObjectExpr"):
-                return "Wr", "bound to a non-const reference parameter"
+                    return "Rd", "", False
+                return "Wr", "non-const operand of an overloaded operator", self.escapes(cur, anc)
+            if k in ("CallExpr", "CXXMemberCallExpr", "CXXConstructExpr", "CXXTemporaryObjectExpr", "CXXNewExpr"):
+                return "Wr", "bound to a non-const reference parameter", False
             if k == "ReturnStmt":
-                return "Wr", "reference returned"
+                return "Wr", "reference returned", True
             if k == "VarDecl":
-                return "Wr", "bound to a local reference"
-            if k == "ConditionalOperator":
+                return "Wr", "bound to a local reference", True
+            if k in ("ConditionalOperator", "BinaryConditionalOperator"):
                 if idx == 0:
-                    return "Rd", ""
-                cur = p
-                continue
-            if k in ("ExprWithCleanups", "MaterializeTemporaryExpr", "CXXBindTemporaryExpr"):
-                cur = p
-                continue
-            return "Wr", "context " + str(k)
-        return "Rd", ""
+                    return "Rd", "", False
+                cur = p; i -= 1; continue
+            return "Wr", "context " + str(k), True
+        return "Rd", "", False
+
+    # ---- what a pointer / smart pointer / reference member designates
+    def pointee_access(self, n, chain, var, kind, pointee_t):
+        """n: MemberExpr of a pointer-like member.  Emits accesses to the pseudo-variable `var.*`."""
+        if self.bfl_class(pointee_t):
+            return          # the object is accounted for by the class-level variables of its own class
+        const_pointee = pointee_t.strip().startswith("const ")
+        sync = self.tu.sync_type(pointee_t)
+        pv = var + ".*"
+        if kind == "ref":
+            rw, note, esc = self.classify(n, chain)
+            self.access(pv, rw, sync, n, chain, "through the reference member" + (": " + note if note else ""), esc)
+            return
+        cur = n
+        i = len(chain) - 1
+        while i >= 0:
+            p = chain[i]
+            k = p.get("kind")
+            idx = self.idx_in(p, cur)
+            if k == "ImplicitCastExpr" or k in PASS_THROUGH:
+                cur = p; i -= 1; continue
+            D = None
+            if k == "UnaryOperator" and p.get("opcode") == "*":
+                D, above = p, chain[:i]
+            elif k == "ArraySubscriptExpr" and idx == 0:
+                D, above = p, chain[:i]
+            elif k == "MemberExpr" and p.get("isArrow") and not (kind == "smart"):
+                D, above = cur, chain[:i + 1]
+            elif k == "CXXOperatorCallExpr" and idx == 1 and self.callee_name(p) in ("operator*", "operator->", "operator[]"):
+                D, above = p, chain[:i]
+            elif k == "MemberExpr" and self.is_method_member(p) and p.get("name") in ("get", "operator->", "operator*") and i >= 1 \
+                    and chain[i - 1].get("kind") == "CXXMemberCallExpr":
+                D, above = chain[i - 1], chain[:i - 1]
+            if D is not None:
+                rw, note, esc = self.classify(D, above)
+                if const_pointee and rw == "Wr" and not note.startswith("cast"):
+                    rw = "Rd"
+                self.access(pv, rw, sync, n, chain, "through the pointer member" + (": " + note if note else ""), esc)
+                return
+            # no dereference here: a raw pointer VALUE that is copied somewhere lets the pointee be used later
+            if kind == "ptr" and k in ("VarDecl", "ReturnStmt", "CallExpr", "CXXMemberCallExpr", "CXXConstructExpr",
+                                       "CXXTemporaryObjectExpr", "InitListExpr", "LambdaExpr") and not const_pointee:
+                self.access(pv, "Wr", sync, n, chain, "pointer value copied (%s)" % k, True)
+                return
+            if kind == "ptr" and k in ("BinaryOperator",) and p.get("opcode") in ASSIGN_OPS and idx == 1 and not const_pointee:
+                self.access(pv, "Wr", sync, n, chain, "pointer value stored", True)
+            return
 
     # ---- traversal
     def visit(self, n, chain):
@@ -442,7 +775,7 @@ class Body:
         k = n.get("kind")
         if k is None:
             return
-        if ATTR.match(k) or k in ("ParmVarDecl",):
+        if ATTR.match(k) or k in ("ParmVarDecl",) or k.endswith("Type") or k.endswith("Comment") or k == "TemplateArgument":
             return
         if k not in TRANSPARENT:
             self.unknown(n, "AST node kind %s is not understood" % k, chain)
@@ -500,36 +833,86 @@ class Body:
         self.locks.append({"id": n.get("id"), "mutex": mutex, "depth": self.depth, "loops": self.loops, "active": True})
         self.lockvars[n.get("id")] = self.locks[-1]
 
+    def lambda_target(self, n, chain):
+        """Where does the closure go?  ('wait', lock) | ('member', class, field) | ('local',) | ('arg',) | ('unknown', why)"""
+        cur = n
+        for i in range(len(chain) - 1, -1, -1):
+            p = chain[i]
+            k = p.get("kind")
+            if k in ("ImplicitCastExpr", "MaterializeTemporaryExpr", "CXXBindTemporaryExpr", "ExprWithCleanups", "ParenExpr",
+                     "CXXFunctionalCastExpr", "ConstantExpr"):
+                cur = p
+                continue
+            if k in ("CXXConstructExpr", "CXXTemporaryObjectExpr"):
+                if THREAD_TYPE.match(norm_std(qual(p))):
+                    return ("unknown", "lambda given to std::thread")
+                t = norm_std(qual(p))
+                if t.startswith("(lambda at ") or re.match(r"^(std::)?function<", t) or "FunctionEvaluation" in t or re.match(r"^(std::)?function<", norm_std(desugared(p))):
+                    cur = p
+                    continue
+                return ("arg",)
+            if k == "CXXCtorInitializer":
+                ai = p.get("anyInit") or {}
+                f = self.tu.field_by_id.get(ai.get("id"))
+                if f:
+                    return ("member", f[0], f[1])
+                return ("unknown", "lambda initialises something that is not a data member")
+            if k == "VarDecl":
+                if p.get("id") in self.locals:
+                    return ("local",)
+                return ("unknown", "lambda stored in a static variable")
+            if k == "CXXMemberCallExpr":
+                callee = p.get("inner", [{}])[0]
+                obj = self.skip_casts(callee.get("inner", [{}])[0]) if callee.get("kind") == "MemberExpr" else {}
+                if callee.get("name") == "wait" and self.is_field_member(obj) and CV_TYPE.match(norm_std(self.tu.field_by_id[obj["referencedMemberDecl"]][2])):
+                    args = [self.skip_casts(a) for a in p.get("inner", [])[1:]]
+                    if len(args) == 2 and args[0].get("kind") == "DeclRefExpr" and (args[0].get("referencedDecl") or {}).get("id") in self.lockvars:
+                        lk = self.lockvars[args[0]["referencedDecl"]["id"]]
+                        if lk["active"] and lk in self.locks:
+                            return ("wait", lk["mutex"])
+                    return ("unknown", "condition_variable::wait of a shape that is not understood")
+                return ("arg",)
+            if k == "CallExpr":
+                if self.callee_name(p) in ("async", "thread", "call_once", "atexit", "signal"):
+                    return ("unknown", "lambda given to %s" % self.callee_name(p))
+                return ("arg",)
+            if k == "CXXOperatorCallExpr":
+                if self.callee_name(p) == "operator=" and self.idx_in(p, cur) == 2:
+                    lhs = self.skip_casts(p.get("inner", [{}, {}])[1])
+                    if self.is_field_member(lhs):
+                        f = self.tu.field_by_id[lhs["referencedMemberDecl"]]
+                        return ("member", f[0], f[1])
+                    if lhs.get("kind") == "DeclRefExpr" and (lhs.get("referencedDecl") or {}).get("id") in self.locals:
+                        return ("local",)
+                    return ("unknown", "lambda assigned to something that is neither a data member nor a local")
+                return ("arg",)
+            return ("unknown", "lambda in a context that is not understood (%s)" % k)
+        return ("unknown", "lambda at top level")
+
     def v_LambdaExpr(self, n, chain):
-        # allowed only as the predicate of condition_variable::wait(lock, pred)
-        call = next((p for p in reversed(chain) if p.get("kind") in ("CXXMemberCallExpr", "CallExpr", "CXXOperatorCallExpr", "CXXConstructExpr", "CXXTemporaryObjectExpr")
-                     and not qual(p).startswith("(lambda at ")), None)   # the closure object itself is copy-constructed into the argument
-        lockname = None
-        if call is not None and call.get("kind") == "CXXMemberCallExpr":
-            callee = call.get("inner", [{}])[0]
-            obj = self.skip_casts(callee.get("inner", [{}])[0]) if callee.get("kind") == "MemberExpr" else {}
-            if callee.get("name") == "wait" and self.is_field_member(obj) and CV_TYPE.match(norm_std(self.tu.field_by_id[obj["referencedMemberDecl"]][2])):
-                args = [self.skip_casts(a) for a in call.get("inner", [])[1:]]
-                if len(args) == 2 and args[0].get("kind") == "DeclRefExpr" and (args[0].get("referencedDecl") or {}).get("id") in self.lockvars:
-                    lk = self.lockvars[args[0]["referencedDecl"]["id"]]
-                    if lk["active"] and lk in self.locks:
-                        lockname = lk["mutex"]
-        if lockname is None:
-            self.unknown(n, "lambda expression outside condition_variable::wait(lock, predicate)", chain)
+        tgt = self.lambda_target(n, chain)
+        bodies = [c for c in n.get("inner", []) if c.get("kind") == "CompoundStmt"]
+        if tgt[0] == "unknown" or not bodies:
+            self.unknown(n, tgt[1] if tgt[0] == "unknown" else "lambda without body", chain)
             return
-        old = self.lambda_lock
-        self.lambda_lock = lockname
-        for c in n.get("inner", []):
-            if c.get("kind") == "CompoundStmt":
-                self.visit(c, chain + [n])
-        self.lambda_lock = old
+        if tgt[0] == "member":
+            # the body runs whenever the std::function member is invoked: a pseudo method of the member's class
+            sub = Body(self.tu, tgt[1], "(closure) " + tgt[2], n, self.repo_free, lambda_node=True)
+            self.closures.append(((tgt[1], "(closure) " + tgt[2]), sub))
+            return
+        old, oldno = self.lambda_lock, self.no_lock
+        if tgt[0] == "wait":
+            self.lambda_lock = tgt[1]      # the predicate of cv.wait(lock, pred) runs with the lock held
+        else:
+            self.lambda_lock, self.no_lock = None, True     # runs now or later on this thread: no credit for a held lock
+        for c in bodies:
+            self.visit(c, chain + [n])
+        self.lambda_lock, self.no_lock = old, oldno
 
     def v_CXXThisExpr(self, n, chain):
-        cur = n
         for p in reversed(chain):
             k = p.get("kind")
-            if k in ("ImplicitCastExpr", "ParenExpr") :
-                cur = p
+            if k in ("ImplicitCastExpr", "ParenExpr"):
                 continue
             if k == "MemberExpr":
                 return
@@ -537,6 +920,17 @@ class Body:
         # `return *this;` hands the caller a reference to the object it already called the method on
         if len(chain) >= 2 and chain[-1].get("kind") == "UnaryOperator" and chain[-1].get("opcode") == "*" and chain[-2].get("kind") == "ReturnStmt":
             return
+        # `*this` / `this` handed to a translated function of namespace bfl: what it does with the object is in its own body
+        for p in reversed(chain):
+            k = p.get("kind")
+            if k in ("ImplicitCastExpr", "ParenExpr", "MaterializeTemporaryExpr", "CXXBindTemporaryExpr") or (k == "UnaryOperator" and p.get("opcode") == "*"):
+                continue
+            if k in ("CXXMemberCallExpr", "CallExpr", "CXXOperatorCallExpr"):
+                c0 = self.skip_casts(p.get("inner", [{}])[0])
+                cid = c0.get("referencedMemberDecl") if c0.get("kind") == "MemberExpr" else (c0.get("referencedDecl") or {}).get("id")
+                if cid in self.tu.method_by_id and not (self.tu.method_info.get(cid, {}).get("implicit")):
+                    return
+            break
         # inside a std::thread construction (handled there) or an argument of the verification hook
         for p in reversed(chain):
             if p.get("kind") in ("CXXTemporaryObjectExpr", "CXXConstructExpr") and THREAD_TYPE.match(norm_std(qual(p))):
@@ -553,16 +947,13 @@ class Body:
     def v_DeclRefExpr(self, n, chain):
         rd = n.get("referencedDecl") or {}
         k = rd.get("kind")
+        parent = chain[-1] if chain else {}
+        gp = chain[-2] if len(chain) > 1 else {}
+        callee_pos = parent.get("kind") == "ImplicitCastExpr" and parent.get("castKind") == "FunctionToPointerDecay" and \
+            gp.get("kind") in ("CXXOperatorCallExpr", "CallExpr") and gp.get("inner", [None])[0] is parent
         if k in ("CXXMethodDecl", "CXXConversionDecl"):
-            # callee position of an operator call / address of a member function
-            parent = chain[-1] if chain else {}
-            gp = chain[-2] if len(chain) > 1 else {}
-            if parent.get("kind") == "ImplicitCastExpr" and parent.get("castKind") == "FunctionToPointerDecay" and \
-               gp.get("kind") in ("CXXOperatorCallExpr", "CallExpr") and gp.get("inner", [None])[0] is parent:
-                m = self.tu.method_by_id.get(rd.get("id"))
-                if m:
-                    self.calls.append(m)
-                return
+            if callee_pos:
+                return self.call_to(rd.get("id"), rd.get("name"), n, chain, operator_call=gp)
             if parent.get("kind") == "UnaryOperator" and parent.get("opcode") == "&":
                 for p in reversed(chain):
                     if p.get("kind") in ("CXXTemporaryObjectExpr", "CXXConstructExpr") and THREAD_TYPE.match(norm_std(qual(p))):
@@ -572,21 +963,78 @@ class Body:
                             return
             self.unknown(n, "pointer to member function %s escapes" % rd.get("name"), chain)
             return
-        if k in ("VarDecl",):
+        if k == "FunctionDecl":
+            fid = rd.get("id")
+            if fid in self.tu.method_by_id:
+                self.calls.append(self.tu.method_by_id[fid])
+                if not callee_pos:
+                    self.unknown(n, "function %s used as a value" % rd.get("name"), chain)
+                return
+            name = rd.get("name")
+            if name in self.repo_free:
+                self.unknown(n, "call of %s, a free function declared at file scope of %s outside namespace bfl: its body is not translated"
+                             % (name, ", ".join(self.repo_free[name][:3])), chain)
+            return
+        if k == "VarDecl":
             vid = rd.get("id")
             if vid in self.lockvars:
                 return self.lock_use(n, chain)
             if vid in self.locals:
                 return
             t = rd.get("type", {}).get("qualType", "")
-            rw, note = self.classify(n, chain)
-            sync = self.tu.sync_type(t)
-            self.access("global::%s" % rd.get("name"), rw, sync, n, chain, note)
+            rw, note, esc = self.classify(n, chain)
+            sync = self.tu.sync_type(t) or (rd.get("name") in SYNC_GLOBALS and bool(STREAM_TYPE.match(norm_std(t))))
+            self.access("global::%s" % rd.get("name"), rw, sync, n, chain, note, esc)
+            if re.match(r"^(const )?(std::)?function<", norm_std(t)):
+                if rd.get("name") in HOOK_NAMES:
+                    pass    # the verification hook: null unless a verification harness installs it (trusted, noted at the `this` argument)
+                else:
+                    self.function_object_use(n, chain, None)
             return
-        # ParmVarDecl, FunctionDecl, EnumConstantDecl, BindingDecl, NonTypeTemplateParmDecl: no shared state
-        if k in ("ParmVarDecl", "FunctionDecl", "EnumConstantDecl", "BindingDecl", "NonTypeTemplateParmDecl", "CXXConstructorDecl"):
+        # ParmVarDecl, EnumConstantDecl, BindingDecl, NonTypeTemplateParmDecl: no shared state
+        if k in ("ParmVarDecl", "EnumConstantDecl", "BindingDecl", "NonTypeTemplateParmDecl", "CXXConstructorDecl"):
             return
         self.unknown(n, "reference to a %s" % k, chain)
+
+    def function_object_use(self, n, chain, closure):
+        """n designates a std::function data member / global.  Invoking it runs a body: the closures assigned to the
+        member anywhere in its class (pseudo method `(closure) field`), or something unknown."""
+        cur = n
+        for p in reversed(chain):
+            k = p.get("kind")
+            if k in ("ImplicitCastExpr", "ParenExpr"):
+                cur = p
+                continue
+            if k == "CXXOperatorCallExpr" and self.callee_name(p) == "operator()" and self.idx_in(p, cur) == 1:
+                if closure is None:
+                    self.unknown(n, "invocation of a global std::function", chain)
+                else:
+                    self.calls.append(closure)
+            return
+
+    def call_to(self, mid, name, n, chain, operator_call=None):
+        """a call whose callee is the method / function with id `mid`"""
+        m = self.tu.method_by_id.get(mid)
+        if m is None:
+            return False
+        info = self.tu.method_info.get(mid, {})
+        if (info.get("implicit") or info.get("defaulted") == "default") and name == "operator=":
+            # memberwise assignment of a bfl class: every data member of the class (and of its bases) is written
+            for (fc, fn, ft) in self.all_fields(m[0]):
+                self.access("%s::%s" % (fc, fn), "Wr", self.tu.sync_type(ft), n, chain, "defaulted operator= of %s" % m[0])
+            return True
+        self.calls.append(m)
+        return True
+
+    def all_fields(self, c, seen=None):
+        seen = set() if seen is None else seen
+        if c in seen or c not in self.tu.records:
+            return []
+        seen.add(c)
+        out = [(c, fn, ft) for fn, ft in self.tu.records[c]["fields"].items() if not fn.startswith("static ")]
+        for b in self.tu.records[c]["bases"]:
+            out += self.all_fields(b, seen)
+        return out
 
     def lock_use(self, n, chain):
         lk = self.lockvars[n["referencedDecl"]["id"]]
@@ -615,30 +1063,36 @@ class Body:
         ref = n.get("referencedMemberDecl")
         if ref in self.tu.field_by_id:
             fc, fn, ft, fd = self.tu.field_by_id[ref]
-            base = self.skip_casts(n.get("inner", [{}])[0])
-            if self.is_field_member(base):
-                bc = self.tu.field_by_id[base["referencedMemberDecl"]][0]
-                # a field of a sub-object: the access is to the outermost member; handled when the base is visited
-                return self.children(n, chain)
-            if fc in TRANSLATED or base.get("kind") == "CXXThisExpr":
-                rw, note = self.classify(n, chain)
-                t = norm_std(ft)
-                sync = self.tu.sync_type(ft) or self.tu.sync_type(fd)
-                if ft.rstrip().endswith("&"):
-                    rw, note = "Rd", "reference member"
-                self.access("%s::%s" % (fc, fn), rw, sync, n, chain, note)
-                if MUTEX_TYPE.match(t) and chain and chain[-1].get("kind") == "MemberExpr" and chain[-1].get("name") in ("lock", "unlock", "try_lock"):
-                    self.unknown(n, "manual %s() of a mutex" % chain[-1].get("name"), chain)
-                if THREAD_TYPE.match(t) and chain and chain[-1].get("kind") == "MemberExpr":
-                    if chain[-1].get("name") == "join":
-                        self.joins += 1
-                    elif chain[-1].get("name") == "detach":
-                        self.unknown(n, "thread detached", chain)
+            rw, note, esc = self.classify(n, chain)
+            t = norm_std(ft)
+            sync = self.tu.sync_type(ft) or self.tu.sync_type(fd)
+            kind, pointee = pointer_kind(ft)
+            var = "%s::%s" % (fc, fn)
+            if kind == "ref":
+                self.access(var, "Rd", sync, n, chain, "reference member (the reference itself)")
+            else:
+                self.access(var, rw, sync, n, chain, note, esc)
+            if kind != "val":
+                self.pointee_access(n, chain, var, kind, pointee)
+            if re.match(r"^(const )?(std::)?function<", t) or re.match(r"^(const )?(std::)?function<", norm_std(fd)):
+                self.function_object_use(n, chain, (fc, "(closure) " + fn))
+            if MUTEX_TYPE.match(t) and chain and chain[-1].get("kind") == "MemberExpr" and chain[-1].get("name") in ("lock", "unlock", "try_lock"):
+                self.unknown(n, "manual %s() of a mutex" % chain[-1].get("name"), chain)
+            if THREAD_TYPE.match(t) and chain and chain[-1].get("kind") == "MemberExpr":
+                if chain[-1].get("name") == "join":
+                    self.joins += 1
+                elif chain[-1].get("name") == "detach":
+                    self.unknown(n, "thread detached", chain)
             return self.children(n, chain)
         if ref in self.tu.method_by_id:
-            self.calls.append(self.tu.method_by_id[ref])
+            self.call_to(ref, n.get("name"), n, chain)
             return self.children(n, chain)
-        # method or field of a class outside namespace bfl (std, Eigen): only the object expression matters
+        # a member the translator has no declaration of: harmless if it belongs to the standard library / Eigen,
+        # not understood if the object is of a class (template) of namespace bfl
+        base = n.get("inner", [{}])[0] if n.get("inner") else {}
+        bt = qual(self.skip_casts(base)) or qual(base)
+        if re.search(r"\bbfl::", bt) or self.bfl_class(bt):
+            self.unknown(n, "member %s of %s is not in the translated declarations" % (n.get("name"), bt), chain)
         self.children(n, chain)
 
     def v_CXXTemporaryObjectExpr(self, n, chain):
@@ -662,9 +1116,27 @@ class Body:
         self.children(n, chain)
 
 
-def translate_tu(src):
+def in_repo(path):
+    if not path:
+        return False
+    rp = os.path.realpath(path)
+    return rp.startswith(os.path.realpath(build.SRC) + os.sep)
+
+
+def add_closures(out, b):
+    for key, sub in b.closures:
+        out["methods"].setdefault(key, []).append({
+            "type": "closure at " + sub.first_site, "virtual": False, "accesses": sub.accesses,
+            "calls": sorted(set(sub.calls)), "forks": sub.forks, "joins": sub.joins, "notes": sub.notes,
+            "site": sub.first_site, "file": sub.first_site.split(":")[0]})
+        add_closures(out, sub)
+
+
+def translate_tu(args):
     """Runs clang on one source file; returns a picklable summary of the translation unit."""
-    key = build.sha(VERSION, build.read(os.path.abspath(__file__)), build.headers_hash(), build.read(src), " ".join(clang_cmd("X")))
+    src, repo_free = args
+    key = build.sha(VERSION, build.read(os.path.abspath(__file__)), build.headers_hash(), build.read(src), " ".join(clang_cmd("X")),
+                    json.dumps(sorted(repo_free.items())))
     cdir = os.path.join(build.BUILD, "C10_cache")
     os.makedirs(cdir, exist_ok=True)
     cp = os.path.join(cdir, os.path.basename(src) + "-" + key + ".pkl")
@@ -678,56 +1150,67 @@ def translate_tu(src):
     if p.returncode != 0:
         return {"src": src, "error": "clang failed on %s:\n%s" % (src, p.stderr[-2000:])}
     tu = TU(src, parse_objects(p.stdout))
-    cls = [c for c, f in TRANSLATED.items() if os.path.join(build.SRC, "src", f) == src]
     out = {"src": src, "records": tu.records, "methods": {}, "error": None}
+    for r in tu.records.values():
+        if "templates" in r:
+            r["templates"] = sorted(r["templates"])
     for (c, name, typ), node in tu.bodies.items():
-        if c not in cls:
+        f = node.get("_lfile") or node.get("_file")
+        body = next((x for x in node.get("inner", []) if x.get("kind") == "CompoundStmt"), {})
+        bf = body.get("_file") or f
+        if not in_repo(bf):
             continue
-        b = Body(tu, c, name, node)
-        mi = next((m for m in tu.records.get(c, {}).get("methods", {}).get(name, []) if m["type"] == typ), {})
+        b = Body(tu, c, name, node, repo_free)
+        mi = tu.method_info.get(node.get("id")) or tu.method_info.get(node.get("previousDecl")) or {}
         out["methods"].setdefault((c, name), []).append({
             "type": typ, "virtual": mi.get("virtual", False), "accesses": b.accesses, "calls": sorted(set(b.calls)),
-            "forks": b.forks, "joins": b.joins, "notes": b.notes, "site": b.site(node)})
+            "forks": b.forks, "joins": b.joins, "notes": b.notes, "site": b.site(body), "file": os.path.basename(bf or "?")})
+        add_closures(out, b)
+    for (c, node) in tu.ctors:
+        body = next((x for x in node.get("inner", []) if x.get("kind") == "CompoundStmt"), {})
+        if not in_repo(body.get("_file") or node.get("_file")):
+            continue
+        add_closures(out, Body(tu, c, "(constructor)", node, repo_free, closures_only=True))
     tmp = cp + ".tmp%d" % os.getpid()
     with open(tmp, "wb") as f:
         pickle.dump(out, f)
     os.replace(tmp, cp)
-    build.prune(cdir, keep=120)
+    build.prune(cdir, keep=400)
     return out
 
 
 # ----------------------------------------------------------------------------- linking
 
-def translate():
+def translate(extra_ctl_roots=()):
     """Returns the table and everything the plug-in reports about it."""
     t0 = time.time()
-    srcs = sorted(set(os.path.join(build.SRC, "src", f) for f in TRANSLATED.values()))
+    srcs = build.lib_sources()
     problems = []
-    missing = [s for s in srcs if not os.path.exists(s)]
-    for s in missing:
-        problems.append("source file %s of a translated class is missing" % s)
+    repo_free = repo_file_scope_functions()
     with ThreadPoolExecutor(6) as ex:
-        tus = list(ex.map(translate_tu, [s for s in srcs if s not in missing]))
+        tus = list(ex.map(translate_tu, [(s, repo_free) for s in srcs]))
     records, methods = {}, {}
     for tu in tus:
         if tu.get("error"):
             problems.append(tu["error"])
             continue
         for c, r in tu["records"].items():
-            if c not in records or (not records[c]["methods"] and r["methods"]):
-                records[c] = r
+            if c not in records:
+                records[c] = {"bases": list(r["bases"]), "fields": dict(r["fields"]), "methods": {k: list(v) for k, v in r["methods"].items()},
+                              "templates": set(r.get("templates", [])), "pattern": r.get("pattern", False)}
+            else:
+                R = records[c]
+                R["bases"] = sorted(set(R["bases"]) | set(r["bases"]))
+                R["fields"].update(r["fields"])
+                for k, v in r["methods"].items():
+                    for i in v:
+                        if i not in R["methods"].setdefault(k, []):
+                            R["methods"][k].append(i)
+                R["templates"] |= set(r.get("templates", []))
         for k, v in tu["methods"].items():
-            methods.setdefault(k, []).extend(v)
-    for c in TRANSLATED:
-        if c not in records:
-            problems.append("class %s was not found in its translation unit" % c)
-        else:
-            declared = set(records[c]["methods"])
-            have = set(n for (cc, n) in methods if cc == c)
-            # a declared, non-pure method without a translated body (defined in another file?) is not understood
-            for mname, ovs in records[c]["methods"].items():
-                if mname not in have and not all(o["pure"] for o in ovs) and not mname.startswith("operator") and mname != "~" + c:
-                    problems.append("method %s::%s has no body in %s" % (c, mname, TRANSLATED[c]))
+            for ov in v:
+                if not any(o["type"] == ov["type"] and o["file"] == ov["file"] for o in methods.get(k, [])):
+                    methods.setdefault(k, []).append(ov)
 
     def ancestors(c, acc=None):
         acc = set() if acc is None else acc
@@ -740,82 +1223,127 @@ def translate():
 
     def related(c):
         """c, its ancestors, and every class that has c as an ancestor."""
+        if c == FREE:
+            return {FREE}
         return {c} | anc.get(c, set()) | {d for d in records if c in anc.get(d, set())}
 
-    def resolve(c, m):
-        return sorted((d, m) for d in related(c) if d in TRANSLATED and (d, m) in methods)
+    unresolved_notes = []
+
+    def resolve(c, m, site=None, report=None):
+        """bodies a call of C::m may execute; `report` collects what cannot be resolved although declared in the repository"""
+        rel = related(c)
+        tg = sorted((d, m) for d in rel if (d, m) in methods)
+        if report is not None and c != FREE:
+            down = {c} | {d for d in records if c in anc.get(d, set())}
+            declared_somewhere = False
+            for d in sorted(rel):
+                infos = records.get(d, {}).get("methods", {}).get(m, [])
+                if not infos:
+                    continue
+                declared_somewhere = True
+                if (d, m) in methods or d not in down:
+                    continue
+                live = [i for i in infos if not i["pure"] and not i["implicit"] and i["defaulted"] != "deleted" and i["defaulted"] != "default"]
+                if live and m not in records[d].get("templates", set()):
+                    report.append("%s::%s is declared (not pure) but no body of it was translated" % (d, m))
+                elif live:
+                    report.append("%s::%s is a member template of which no instantiation was translated" % (d, m))
+            if not tg and declared_somewhere:
+                unresolved_notes.append("%s::%s is pure virtual with no implementation in the library (user code; not covered)" % (c, m))
+        if report is not None and c == FREE and not tg:
+            report.append("free function %s of namespace bfl has no translated body" % m)
+        return tg
 
     def reach(roots):
-        seen, todo, unresolved = [], list(roots), []
+        seen, todo = [], list(roots)
+        unresolved = {}
         while todo:
             k = todo.pop(0)
-            if k in seen:
-                continue
-            if k not in methods:
+            if k in seen or k not in methods:
                 continue
             seen.append(k)
             for ov in methods[k]:
                 for (c, m) in ov["calls"]:
-                    tg = resolve(c, m)
-                    for t in tg:
+                    rep = []
+                    for t in resolve(c, m, report=rep):
                         if t not in seen:
                             todo.append(t)
-        return seen
+                    for r in rep:
+                        unresolved.setdefault(k, [])
+                        if r not in unresolved[k]:
+                            unresolved[k].append(r)
+        return seen, unresolved
 
-    ctl_roots = []
-    for (c, m) in CTL_ROOTS:
-        if (c, m) not in methods:
-            problems.append("control API method %s::%s not found" % (c, m))
-        ctl_roots += resolve(c, m)
-    ctl = reach(ctl_roots)
-    forks = sorted(set(f for k in ctl for ov in methods[k] for f in ov["forks"]))
-    joins = [k for k in ctl if any(ov["joins"] for ov in methods[k])]
-    if not forks:
-        problems.append("no thread creation found in the control API (boot)")
-    if not joins:
-        problems.append("no thread join found in the control API (wait)")
-    flt_roots = []
-    for (c, m) in list(forks) + FLT_ASSUMED_ROOTS:
-        r = resolve(c, m)
-        if not r:
-            problems.append("filtering-thread root %s::%s not found" % (c, m))
-        flt_roots += r
-    flt = reach(flt_roots)
-    # a thread created anywhere but in the control API is not modelled
-    for k in flt:
-        for ov in methods[k]:
-            if ov["forks"] or ov["joins"]:
-                problems.append("thread creation/join inside the filtering thread (%s::%s)" % k)
-
-    def entries(keys, thread):
-        out = []
-        for k in sorted(keys):
-            accs = []
+    def analyse(ctl_root_list):
+        probs = []
+        ctl_roots = []
+        for (c, m) in ctl_root_list:
+            if (c, m) not in methods:
+                probs.append("control API method %s::%s not found" % (c, m))
+            ctl_roots += resolve(c, m)
+        ctl, ctl_unres = reach(ctl_roots)
+        forks = sorted(set(f for k in ctl for ov in methods[k] for f in ov["forks"]))
+        joins = [k for k in ctl if any(ov["joins"] for ov in methods[k])]
+        if not forks:
+            probs.append("no thread creation found in the control API (boot)")
+        if not joins:
+            probs.append("no thread join found in the control API (wait)")
+        flt_roots = []
+        for (c, m) in list(forks) + FLT_ASSUMED_ROOTS:
+            r = resolve(c, m)
+            if not r and (c, m) in forks:
+                probs.append("filtering-thread root %s::%s not found" % (c, m))
+            flt_roots += r
+        flt, flt_unres = reach(flt_roots)
+        for k in flt:
             for ov in methods[k]:
-                for a in ov["accesses"]:
-                    if a not in accs:
-                        accs.append(a)
-            out.append({"method": "%s::%s" % k, "thread": thread, "phase": "Concurrent", "accs": accs})
-        return out
-    table = entries(ctl, "Ctl") + entries(flt, "Flt")
+                if ov["forks"] or ov["joins"]:
+                    probs.append("thread creation/join inside the filtering thread (%s::%s)" % k)
+
+        def entries(keys, thread, unres):
+            out = []
+            for k in sorted(keys):
+                accs = []
+                for ov in methods[k]:
+                    for a in ov["accesses"]:
+                        if a not in accs:
+                            accs.append(a)
+                for r in unres.get(k, []):
+                    accs.append((None, "Wr", "Plain", methods[k][0]["site"], "call not resolved: " + r))
+                out.append({"method": "%s::%s" % k, "thread": thread, "phase": "Concurrent", "accs": accs})
+            return out
+        table = entries(ctl, "Ctl", ctl_unres) + entries(flt, "Flt", flt_unres)
+        for k, rs in list(ctl_unres.items()) + list(flt_unres.items()):
+            for r in rs:
+                p = "call from %s::%s not resolved: %s" % (k[0], k[1], r)
+                if p not in probs:
+                    probs.append(p)
+        return table, probs, ctl, flt, forks, joins
+
+    table, probs, ctl, flt, forks, joins = analyse(list(CTL_ROOTS) + list(extra_ctl_roots))
+    problems += probs
     # model-level entries: construction writes every member before boot(); destruction after wait()
     used = sorted(set(a[0] for e in table for a in e["accs"] if a[0] and "::" in a[0] and not a[0].startswith(("global::", "static::"))))
     table.insert(0, {"method": "(construction)", "thread": "Ctl", "phase": "PreFork",
                      "accs": [(v, "Wr", "Plain", "construction", "") for v in used]})
     table.append({"method": "(destruction)", "thread": "Ctl", "phase": "PostJoin",
                   "accs": [(v, "Wr", "Plain", "destruction", "") for v in used]})
-    if problems:
+    tu_problems = [p for p in problems if p not in probs]
+    if tu_problems:
         table.append({"method": "(translator)", "thread": "Flt", "phase": "Concurrent",
-                      "accs": [(None, "Wr", "Plain", "translator", p[:120]) for p in problems]})
+                      "accs": [(None, "Wr", "Plain", "translator", p[:120]) for p in tu_problems]})
     notes = [n for k in set(ctl) | set(flt) for ov in methods[k] for n in ov["notes"]]
+    classes = sorted(set(c for (c, m) in methods if c != FREE))
     info = {"table": table, "problems": problems, "notes": sorted(set(notes)), "ctl_methods": ["%s::%s" % k for k in ctl],
             "flt_methods": ["%s::%s" % k for k in flt], "forks": ["%s::%s" % f for f in forks], "joins": ["%s::%s" % j for j in joins],
-            "translated_classes": sorted(TRANSLATED), "seconds": round(time.time() - t0, 2),
-            "n_methods_translated": len(methods)}
+            "translated_classes": classes, "translated_files": [os.path.basename(s) for s in srcs],
+            "seconds": round(time.time() - t0, 2), "n_methods_translated": len(methods),
+            "uncovered_virtuals": sorted(set(unresolved_notes))}
     info["offenders"] = offenders(table)
     info["racy_vars"] = racy_vars(info["offenders"])
     info["shared_vars"] = shared_vars(table)
     info["sites"] = site_map(table)
+    info["ctl_ctl"] = ctl_ctl_conflicts(table)
     return info
 
 
@@ -839,16 +1367,30 @@ def pair_ok(c, f, cphase):
 
 def offenders(table):
     out = []
+    flt = [(fe["method"], f) for fe in table if fe["thread"] == "Flt" for f in fe["accs"]]
     for ce in table:
         if ce["thread"] != "Ctl":
             continue
         for c in ce["accs"]:
-            for fe in table:
-                if fe["thread"] != "Flt":
-                    continue
-                for f in fe["accs"]:
-                    if not pair_ok(c, f, ce["phase"]):
-                        out.append({"ctl_method": ce["method"], "ctl": c, "flt_method": fe["method"], "flt": f})
+            for fm, f in flt:
+                if not pair_ok(c, f, ce["phase"]):
+                    out.append({"ctl_method": ce["method"], "ctl": c, "flt_method": fm, "flt": f})
+    return out
+
+
+def ctl_ctl_conflicts(table):
+    """Pairs of accesses of two control methods that WOULD race if two controlling threads were used
+    (outside the property: it speaks of one controlling thread); reported as a separate list."""
+    accs = [(e["method"], a) for e in table if e["thread"] == "Ctl" and e["phase"] == "Concurrent" for a in e["accs"]]
+    out, seen = [], set()
+    for i, (m1, a) in enumerate(accs):
+        for (m2, b) in accs[i:]:
+            if not pair_ok(a, b, "Concurrent"):
+                v = a[0] or b[0] or "unknown"
+                key = (v, m1, m2)
+                if key not in seen:
+                    seen.add(key)
+                    out.append({"var": v, "a": "%s %s [%s] %s" % (m1, a[1], a[2], a[3]), "b": "%s %s [%s] %s" % (m2, b[1], b[2], b[3])})
     return out
 
 
@@ -935,15 +1477,18 @@ def main():
     else:
         path, h = write_table(info)
     print("wrote %s (%s): %d entries, %d accesses, %.1fs" % (path, h, len(info["table"]), sum(len(e["accs"]) for e in info["table"]), info["seconds"]))
-    print("Ctl methods:", ", ".join(info["ctl_methods"]))
-    print("Flt methods:", ", ".join(info["flt_methods"]))
+    print("Ctl methods (%d):" % len(info["ctl_methods"]), ", ".join(info["ctl_methods"]))
+    print("Flt methods (%d):" % len(info["flt_methods"]), ", ".join(info["flt_methods"]))
     print("forks:", info["forks"], "joins:", info["joins"])
     print("shared variables:", info["shared_vars"])
     print("racy variables:", info["racy_vars"], "(%d offending pairs)" % len(info["offenders"]))
+    print("Ctl x Ctl conflicts (two controllers; outside the property):", sorted(set(c["var"] for c in info["ctl_ctl"])))
     for p in info["problems"]:
         print("PROBLEM:", p)
     for n in info["notes"]:
         print("note:", n)
+    for n in info["uncovered_virtuals"]:
+        print("uncovered:", n)
     if "-v" in sys.argv:
         for e in info["table"]:
             print(e["method"], e["thread"], e["phase"])
